@@ -69,9 +69,16 @@ class MetaString(type):
         string_capacity = info.size - 8
         Int64._to_buffer(buffer, offset, size)
         if isinstance(value, String):
+            # only the characters: the slot keeps the size it was given
+            nchars = value._size - 8
             buffer.update_from_xbuffer(
-                offset, value._buffer, value._offset, value._size
+                offset + 8, value._buffer, value._offset + 8, nchars
             )
+            if string_capacity > nchars:
+                buffer.update_from_buffer(
+                    offset + 8 + nchars,
+                    b"\x00" * (string_capacity - nchars),
+                )
         elif isinstance(value, str):
             data = info.data
             off = string_capacity - len(data)
